@@ -85,6 +85,8 @@ def alphabet():
         # the caller re-uses one pre-allocated array (overwritten in place by the caller between calls)
         'cf_buf_A': lambda s: (s['buf'].__setitem__(slice(None), s['bufA']), compute_features(s['buf'], FS, FR, threshold_kwargs=s['thr']))[1],
         'cf_buf_B': lambda s: (s['buf'].__setitem__(slice(None), s['bufB']), compute_features(s['buf'], FS, FR, threshold_kwargs=s['thr']))[1],
+        'amp_buf_A': lambda s: (s['buf'].__setitem__(slice(None), s['bufA']), compute_features(s['buf'], FS, FR, burst_method='amp', threshold_kwargs=s['thra'], burst_kwargs=s['bk']))[1],
+        'amp_buf_B': lambda s: (s['buf'].__setitem__(slice(None), s['bufB']), compute_features(s['buf'], FS, FR, burst_method='amp', threshold_kwargs=s['thra'], burst_kwargs=s['bk']))[1],
         'shape_buf_B': lambda s: (s['buf'].__setitem__(slice(None), s['bufB']), compute_shape_features(s['buf'], FS, FR))[1],
         # default-argument paths: no thresholds / no options given
         'cf_default': lambda s: compute_features(s['sig'], FS, FR),
@@ -132,7 +134,7 @@ def alphabet():
     return A
 
 
-NAMES = ['cf_default', 'cf_default_t', 'cf_amp_default', 'cf_amp_nothr_m8', 'edges_noburst', 'cf_buf_A', 'cf_buf_B', 'shape_buf_B', 'cf_cycles', 'cf_trough', 'cf_amp', 'cf_amp_m', 'cf_amp_t', 'cf_nosamp', 'shape', 'shape_t', 'cyclepoints',
+NAMES = ['amp_buf_A', 'amp_buf_B', 'cf_default', 'cf_default_t', 'cf_amp_default', 'cf_amp_nothr_m8', 'edges_noburst', 'cf_buf_A', 'cf_buf_B', 'shape_buf_B', 'cf_cycles', 'cf_trough', 'cf_amp', 'cf_amp_m', 'cf_amp_t', 'cf_nosamp', 'shape', 'shape_t', 'cyclepoints',
          'burstfeat_c', 'burstfeat_a', 'ampfrac', 'ampcons', 'percons', 'mono', 'bfrac', 'extrema', 'zerox', 'phase',
          '2d_dict', '2d_amp', '2d_list', '2d_none', '2d_none_list', '3d', '3d_1', '3d01', 'edges', 'edges_t', 'limit',
          'limit_t', 'epoch', 'epoch_t', 'drop', 'plt_summary', 'plt_summary_t', 'plt_summary_a', 'plt_param', 'plt_cpdf',
